@@ -30,7 +30,7 @@ def gates(tier):
     return {
         "min_decided": {a: 300 * k for a in APIS[:5]} | {APIS[5]: 1500 * k},
         "shapes": {c: 5 * k for c in ["eps_arc", "multi_initial", "nondeterministic", "acyclic", "cyclic", "dead_state",
-                                      "unreachable_state", "sr:Q", "sr:Float", "empty_language"]},
+                                      "unreachable_state", "sr:Q", "sr:Float", "empty_language", "zero_weight_arc", "tiny_weight"]},
         "min_events": {"determinize.subset_states": 500 * k},
         "min_hashseeds": 2,
     }
@@ -51,13 +51,14 @@ def gen_case(rng, spec):
     return {"m": m, "R": rng.choice(["Q", "Q", "Q", "Float"]), "maxlen": 4 if len(m["alphabet"]) < 3 else 3}
 
 
-def live_states(D):
-    "indices of states on an accepting path (non-zero weights), from a Dense view"
+def live_states(D, structural=False):
+    """indices of states on an accepting path, from a Dense view; structural=True follows every arc that is
+    present (what the Boolean `trim` promises), otherwise only arcs of non-zero weight (`trim_vals`, `push`)"""
     n = D.n
     adj = {i: set() for i in range(n)}
     radj = {i: set() for i in range(n)}
     for i, _a, j, w in D.raw_arcs:
-        if w != D.zero:
+        if structural or w != D.zero:
             adj[i].add(j)
             radj[j].add(i)
 
@@ -194,11 +195,11 @@ def run_case(case, ctx):
         if ok:
             Dr = equivalent(api, name, res, c2)
             if Dr is not None:
-                live, acc, co = live_states(Dr)
+                live, acc, co = live_states(Dr, structural=(name == "trim"))
                 # only states that carry something count (states mentioned by arcs / start / stop)
                 used = set()
                 for i, _a, j, w in Dr.raw_arcs:
-                    if w != Dr.zero:
+                    if name == "trim" or w != Dr.zero:
                         used |= {i, j}
                 used |= {i for i in range(Dr.n) if Dr.start[i] != Dr.zero or Dr.stop[i] != Dr.zero}
                 ctx.check(APIS[5], used <= live, f"{name}/useless-state-kept", c2,
